@@ -180,15 +180,15 @@ def frame_eflr(frames):
          (b'SPACING', 2, None, None), (b'ENCRYPTED', 15, None, None), (b'INDEX-MIN', 2, None, None), (b'INDEX-MAX', 2, None, None)]
     objs = []
     for fr in frames:
-        objs.append(((fr.get('o', 1), 0, fr['name']),
+        objs.append(((fr.get('o', 1), fr.get('c', 0), fr['name']),
                      [[fr.get('description', b'')] if fr.get('description') is not None else None,
                       [(c.get('o', 1), c.get('c', 0), c['name']) for c in fr['channels']], [fr.get('index_type', b'BOREHOLE-DEPTH')],
                       [fr.get('direction', b'DECREASING')], None, None, None, None]))
     return simple_eflr(b'FRAME', t, objs)
 
 
-def iflr(frame_name, frame_number, data, o=1):
-    return obname(o, 0, frame_name) + uvari(frame_number) + data
+def iflr(frame_name, frame_number, data, o=1, c=0):
+    return obname(o, c, frame_name) + uvari(frame_number) + data
 
 
 def origin_full(file_id=b'VERIF', well=b'WELL-1', field=b'FIELD', company=b'COMPANY', producer=b'PRODUCER',
